@@ -143,6 +143,11 @@ func areaShadow(r *Rng, n int, dir string) (*AreaOut, error) {
 					}
 				}
 			}
+			if dup && r.Chance(50) {
+				// a second capture after the deletions: the shadow now holds DELETION MARKERS for some pairs, in between
+				// live pairs of the same key (what a mirror cycle after a delete, or a merged remote delete, leaves)
+				_ = sy.VerifMainToShadow(ctx, txn, header.Timestamp(now/2+now/4))
+			}
 			if op == "projectdup" && r.Chance(35) {
 				// pairs that arrived from DIFFERENT instances (merged into the shadow DBI by LoadOnce): a value and a
 				// longer value extending it by a byte below the key length sort differently as shadow keys and as
